@@ -11,14 +11,18 @@ import (
 	"errors"
 	"fmt"
 	"io"
+	"math"
+	"reflect"
 	"runtime"
 	"sort"
 	"strings"
 	"sync"
+	"sync/atomic"
 	"testing"
 	"time"
 
 	"github.com/pion/interceptor"
+	"github.com/pion/interceptor/internal/verifhook"
 	"github.com/pion/interceptor/pkg/cc"
 	"github.com/pion/interceptor/pkg/flexfec"
 	"github.com/pion/interceptor/pkg/gcc"
@@ -66,6 +70,11 @@ type uStep struct {
 	Seq   []uStep  `json:"seq"` // a == "seq": run these steps in order (one role of a concurrent program)
 	Inc   int      `json:"inc"` // sequence-number increment per repetition (default 1; 0 is written as -1)
 	Gap   int      `json:"gap"` // microseconds to sleep between repetitions
+	H1    bool     `json:"h1"`  // C11 re-bind: step of the stream's FIRST life (skipped by the fresh run)
+	Ob    bool     `json:"ob"`  // C11 re-bind: record an observation after this step
+	Clk   int      `json:"clk"` // C11 re-bind: set the controlled clock to this many ms before the step
+	Cr    int      `json:"cr"`  // StreamInfo clock rate of a bind step (0: 90000)
+	Alt   int      `json:"alt"` // StreamInfo of a bind step: RTX / FEC SSRCs shifted by this much
 }
 
 type uScript struct {
@@ -76,6 +85,12 @@ type uScript struct {
 	Both    bool      `json:"both"` // C13: run twice (fresh buffers / reused and scribbled buffers) and compare emissions
 	NoWire  bool      `json:"nowire"` // C12: do not log packets reaching the transport side (long runs)
 	Strict  bool      `json:"strict"` // C11: goroutine census 2 ms after Close returned, without the usual grace period
+	Rebind  bool      `json:"rebind"` // C11 P5: run twice (with / without the first life of stream rs) and record observations about rs
+	RS      uint32    `json:"rs"`     // the re-bound stream
+	Agg     bool      `json:"agg"`    // re-bind: emissions are only observed in aggregate, at the final drain step
+	Kind    string    `json:"kind"`   // re-bind: kind name of the generated behaviour (copied into the reset event)
+	BNums   []int     `json:"bnums"`  // re-bind: transport-wide numbers of the stream's suffix packets (copied into the reset event)
+	HLen    int       `json:"hlen"`   // re-bind: number of first-life steps on rs
 }
 
 var errUInner = errors.New("verif: injected transport failure")
@@ -157,6 +172,7 @@ type uEnv struct {
 	scribble bool  // overwrite caller-owned buffers as soon as a call has returned
 	emis     []vfM // everything the chain emitted or recorded that derives from packet contents
 	readBuf  []byte
+	rb       *uRebind // C11 re-bind mode: controlled clock, tick gates, observation recorder (nil otherwise)
 }
 
 type uFlight struct {
@@ -180,7 +196,7 @@ func (s *uSyncBuf) Write(p []byte) (int, error) {
 }
 
 func (e *uEnv) emit(v vfM) {
-	if e.quiet {
+	if e.quiet || e.rb != nil { // (re-bind mode records observations only, see uRunRebind)
 		return
 	}
 	e.mu.Lock()
@@ -247,6 +263,9 @@ func uOpt(m uMember, k string, d int) int {
 
 func (e *uEnv) factory(m uMember) (interceptor.Factory, error) { //nolint:cyclop
 	ivl := time.Duration(uOpt(m, "ivl", 1)) * time.Millisecond
+	if us := uOpt(m, "ivlus", 0); us > 0 { // (interval in microseconds, for stepped loops)
+		ivl = time.Duration(us) * time.Microsecond
+	}
 	switch m.K {
 	case "noop":
 		return uFactory(func(string) (interceptor.Interceptor, error) { return &interceptor.NoOp{}, nil }), nil
@@ -276,11 +295,19 @@ func (e *uEnv) factory(m uMember) (interceptor.Factory, error) { //nolint:cyclop
 
 		return nack.NewResponderInterceptor(opts...)
 	case "rrecv":
+		if e.rb != nil { // controlled clock; the loop is stepped through its tick gate
+			return report.NewReceiverInterceptor(report.ReceiverInterval(ivl), report.ReceiverNow(e.rb.now))
+		}
+
 		return report.NewReceiverInterceptor(report.ReceiverInterval(ivl))
 	case "rsend":
 		opts := []report.SenderOption{report.SenderInterval(ivl)}
 		if uOpt(m, "latest", 0) != 0 {
 			opts = append(opts, report.SenderUseLatestPacket())
+		}
+		if e.rb != nil { // controlled clock and ticker
+			opts = append(opts, report.SenderNow(e.rb.now),
+				report.SenderTicker(func(time.Duration) report.Ticker { return e.rb.newTicker() }))
 		}
 
 		return report.NewSenderInterceptor(opts...)
@@ -289,11 +316,28 @@ func (e *uEnv) factory(m uMember) (interceptor.Factory, error) { //nolint:cyclop
 	case "twcchdr":
 		return twcc.NewHeaderExtensionInterceptor()
 	case "rfc8888":
+		if e.rb != nil { // controlled clock and ticker (the ticker interface of the package is unexported: built by reflection)
+			ft := reflect.TypeOf(rfc8888.TickerFactory(nil))
+			fn := reflect.MakeFunc(ft, func([]reflect.Value) []reflect.Value {
+				return []reflect.Value{reflect.ValueOf(e.rb.newTicker()).Convert(ft.Out(0))}
+			})
+			tf, ok := fn.Interface().(rfc8888.TickerFactory)
+			if !ok {
+				return nil, fmt.Errorf("cannot build an rfc8888.TickerFactory by reflection") //nolint:err113
+			}
+
+			return rfc8888.NewSenderInterceptor(rfc8888.SendInterval(ivl), rfc8888.SenderNow(e.rb.now), rfc8888.SenderTicker(tf))
+		}
+
 		return rfc8888.NewSenderInterceptor(rfc8888.SendInterval(ivl))
 	case "rtpfb":
 		return rtpfb.NewInterceptor()
 	case "stats":
-		f, err := stats.NewInterceptor()
+		sopts := []stats.Option{}
+		if e.rb != nil {
+			sopts = append(sopts, stats.SetNowFunc(e.rb.now))
+		}
+		f, err := stats.NewInterceptor(sopts...)
 		if err == nil {
 			f.OnNewPeerConnection(func(_ string, g stats.Getter) { e.statsGetter = g })
 		}
@@ -428,6 +472,14 @@ func uSumRTCP(pkts []rtcp.Packet) []vfM { //nolint:cyclop
 
 // transport-side writers ---------------------------------------------------------------------------------
 func (e *uEnv) wireRTP(s uint32) interceptor.RTPWriter {
+	gen := 0
+	if e.rb != nil { // re-bind mode: which bind of the stream handed out this transport-side writer
+		e.mu.Lock()
+		e.rb.gen[s]++
+		gen = e.rb.gen[s]
+		e.mu.Unlock()
+	}
+
 	return interceptor.RTPWriterFunc(func(h *rtp.Header, pl []byte, _ interceptor.Attributes) (int, error) {
 		e.mu.Lock()
 		defer e.mu.Unlock()
@@ -436,6 +488,9 @@ func (e *uEnv) wireRTP(s uint32) interceptor.RTPWriter {
 		}
 		fl := e.inflight[h]
 		app := fl != nil
+		if e.rb != nil && s == e.rb.s {
+			e.rb.capRTP(h, pl, app, gen == e.rb.gen[s])
+		}
 		var rec vfM
 		if !e.nowire || e.quiet {
 			rec = vfPkt(h, pl)
@@ -467,6 +522,9 @@ func (e *uEnv) wireRTCP() interceptor.RTCPWriter {
 		e.mu.Lock()
 		defer e.mu.Unlock()
 		app := len(pkts) > 0 && e.curRTCP != nil && pkts[0] == e.curRTCP
+		if e.rb != nil && !app {
+			e.rb.capRTCP(pkts)
+		}
 		if !app && e.failInjected {
 			if !e.quiet && !e.nowire {
 				e.out.Emit(vfM{"a": "wire", "t": "rtcp", "s": 0, "app": false, "failed": true, "closed": e.closed, "pkt": vfM{}, "sum": uSumRTCP(pkts)})
@@ -572,6 +630,11 @@ func TestVerifUnivExec(t *testing.T) {
 		if err := json.Unmarshal(raw, &sc); err != nil {
 			t.Fatalf("VERIF-INFRA bad script: %v", err)
 		}
+		if sc.Rebind {
+			uRunRebind(t, &sc, out)
+
+			continue
+		}
 		if !sc.Both {
 			uRun(t, &sc, out, true, false)
 
@@ -661,6 +724,9 @@ type uBound struct {
 
 func uInfo(st *uStep) *interceptor.StreamInfo {
 	info := &interceptor.StreamInfo{SSRC: st.S, ClockRate: 90000, PayloadType: 96, MimeType: "video/VP8"}
+	if st.Cr > 0 {
+		info.ClockRate = uint32(st.Cr) //nolint:gosec
+	}
 	if st.Nack {
 		info.RTCPFeedback = append(info.RTCPFeedback, interceptor.RTCPFeedback{Type: "nack"})
 	}
@@ -671,19 +737,29 @@ func uInfo(st *uStep) *interceptor.StreamInfo {
 		info.RTPHeaderExtensions = append(info.RTPHeaderExtensions, interceptor.RTPHeaderExtension{URI: uTwccURI, ID: st.Twcc})
 	}
 	if st.Rtx {
-		info.SSRCRetransmission, info.PayloadTypeRetransmission = st.S+1000, 97
+		info.SSRCRetransmission, info.PayloadTypeRetransmission = st.S+1000+uint32(st.Alt), 97 //nolint:gosec
 	}
 	if st.Fec {
-		info.SSRCForwardErrorCorrection, info.PayloadTypeForwardErrorCorrection = st.S+2000, 98
+		info.SSRCForwardErrorCorrection, info.PayloadTypeForwardErrorCorrection = st.S+2000+uint32(st.Alt), 98 //nolint:gosec
 	}
 
 	return info
 }
 
-func uRun(t *testing.T, sc *uScript, out *vfWriter, scribble, quiet bool) []vfM { //nolint:gocognit,cyclop,maintidx
+func uRun(t *testing.T, sc *uScript, out *vfWriter, scribble, quiet bool) []vfM {
+	t.Helper()
+
+	return uRunX(t, sc, out, scribble, quiet, nil)
+}
+
+func uRunX(t *testing.T, sc *uScript, out *vfWriter, scribble, quiet bool, rb *uRebind) []vfM { //nolint:gocognit,cyclop,maintidx
 	t.Helper()
 	e := &uEnv{t: t, out: out, dump: &uSyncBuf{}, nextRTP: map[uint32][]byte{}, scribble: scribble, quiet: quiet, nowire: sc.NoWire,
-		okW: map[uint32]int{}, okR: map[uint32]int{}, inflight: map[*rtp.Header]*uFlight{}, failStreams: map[uint32]bool{}}
+		okW: map[uint32]int{}, okR: map[uint32]int{}, inflight: map[*rtp.Header]*uFlight{}, failStreams: map[uint32]bool{}, rb: rb}
+	if rb != nil {
+		e.nowire = true
+		rb.e = e
+	}
 	kinds := []string{}
 	reg := &interceptor.Registry{}
 	for _, m := range sc.Members {
@@ -734,6 +810,13 @@ func uRun(t *testing.T, sc *uScript, out *vfWriter, scribble, quiet bool) []vfM 
 			"tw": st.Tw, "probes": []vfM{}, "errs": []int{}, "leaked": 0, "stack": "", "raw": st.Raw != nil, "len": 0}
 		var blocked bool
 		var pan string
+		if e.rb != nil {
+			if st.H1 && e.rb.fresh { // the fresh run does not have the first life of the stream
+				return nil
+			}
+			e.rb.begin(st)
+			ev["es"], ev["rseq"], ev["rep"] = "", -1, []vfM{}
+		}
 		switch st.A {
 		case "bindw":
 			blocked, pan = uGuard(limit, func() {
@@ -742,6 +825,9 @@ func uRun(t *testing.T, sc *uScript, out *vfWriter, scribble, quiet bool) []vfM 
 				rtcpW = w
 				smu.Unlock()
 			})
+			if e.rb != nil && !blocked {
+				e.rb.afterBindW()
+			}
 		case "bindr":
 			blocked, pan = uGuard(limit, func() {
 				rr := chain.BindRTCPReader(interceptor.RTCPReaderFunc(
@@ -789,6 +875,9 @@ func uRun(t *testing.T, sc *uScript, out *vfWriter, scribble, quiet bool) []vfM 
 			smu.Lock()
 			remote[st.S] = b
 			smu.Unlock()
+			if e.rb != nil && !blocked {
+				e.rb.afterBindM(st)
+			}
 		case "unbindl":
 			if b := getLocal(st.S); b != nil {
 				smu.Lock()
@@ -872,6 +961,9 @@ func uRun(t *testing.T, sc *uScript, out *vfWriter, scribble, quiet bool) []vfM 
 				e.mu.Lock()
 				e.okW[st.S]++
 				e.mu.Unlock()
+			}
+			if e.rb != nil && werr != nil {
+				ev["es"] = werr.Error()
 			}
 			if e.scribble { // the caller reuses its buffers immediately (C13)
 				for i := range pl {
@@ -974,6 +1066,14 @@ func uRun(t *testing.T, sc *uScript, out *vfWriter, scribble, quiet bool) []vfM 
 			e.mu.Unlock()
 			ev["n"], ev["err"], ev["len"] = n, uErrClass(rerr), len(rawb)
 			ev["same"] = n <= len(buf) && n >= 0 && bytes.Equal(buf[:min(n, len(buf))], rawb)
+			if e.rb != nil && !blocked {
+				if rerr != nil {
+					ev["es"] = rerr.Error()
+				} else if n >= 12 && n <= len(buf) {
+					ev["rseq"] = int(buf[2])<<8 | int(buf[3])
+				}
+				e.rb.afterRead(rerr == nil)
+			}
 			if rerr == nil && !blocked {
 				e.mu.Lock()
 				e.okR[st.S]++
@@ -1041,12 +1141,50 @@ func uRun(t *testing.T, sc *uScript, out *vfWriter, scribble, quiet bool) []vfM 
 			buf := make([]byte, 1500)
 			var n int
 			var rerr error
-			blocked, pan = uGuard(limit, func() { n, _, rerr = rtcpR.Read(buf, interceptor.Attributes{}) })
+			var rattr interceptor.Attributes
+			blocked, pan = uGuard(limit, func() { n, rattr, rerr = rtcpR.Read(buf, interceptor.Attributes{}) })
 			e.mu.Lock()
 			e.nextErr = false
 			e.mu.Unlock()
 			ev["n"], ev["err"], ev["len"] = n, uErrClass(rerr), len(rawb)
 			ev["same"] = n <= len(buf) && n >= 0 && bytes.Equal(buf[:min(n, len(buf))], rawb)
+			if e.rb != nil && !blocked {
+				if rerr != nil {
+					ev["es"] = rerr.Error()
+				}
+				ev["rep"] = e.rb.afterRTCPRead(st, rattr, rerr == nil)
+			}
+		case "tick": // C11 re-bind: exactly one pass of every tick-driven loop of the chain
+			if e.rb == nil {
+				ev["skipped"] = true
+
+				break
+			}
+			e.rb.tick()
+		case "drain": // C11 re-bind: wait until the feedback loop has acknowledged the listed transport-wide numbers
+			if e.rb == nil {
+				ev["skipped"] = true
+
+				break
+			}
+			e.rb.drain(st)
+		case "statswait": // wait until the statistics interceptor's recorder goroutines have run (changes no counter)
+			deadline := time.Now().Add(5 * time.Second)
+			for {
+				buf := make([]byte, 1<<20)
+				buf = buf[:runtime.Stack(buf, true)]
+				if !strings.Contains(string(buf), "stats.(*Interceptor).getRecorder.func") {
+					break
+				}
+				if time.Now().After(deadline) {
+					if e.rb != nil {
+						e.rb.setInc("statistics recorder did not start")
+					}
+
+					break
+				}
+				time.Sleep(50 * time.Microsecond)
+			}
 		case "wait":
 			time.Sleep(time.Duration(st.Ms) * time.Millisecond)
 		case "failw": // C11: the RTCP writer starts (ms != 0) / stops failing for feedback the chain writes itself
@@ -1208,6 +1346,19 @@ func uRun(t *testing.T, sc *uScript, out *vfWriter, scribble, quiet bool) []vfM 
 			break
 		}
 		ev := exec(&sc.Steps[i])
+		if ev == nil {
+			continue
+		}
+		if e.rb != nil {
+			if sc.Steps[i].Ob {
+				e.rb.observe(&sc.Steps[i], ev)
+			}
+			if ev["blocked"] == true {
+				aborted = true
+			}
+
+			continue
+		}
 		if sc.Steps[i].A != "par" {
 			e.emit(ev)
 		} else {
@@ -1219,6 +1370,9 @@ func uRun(t *testing.T, sc *uScript, out *vfWriter, scribble, quiet bool) []vfM 
 		if ev["blocked"] == true {
 			aborted = true
 		}
+	}
+	if e.rb != nil {
+		e.rb.shutdown() // loops parked at a tick gate run freely again (Close waits for them)
 	}
 	settle := 20
 	if sc.Settle > 0 {
@@ -1277,4 +1431,487 @@ func uRun(t *testing.T, sc *uScript, out *vfWriter, scribble, quiet bool) []vfM 
 	defer e.mu.Unlock()
 
 	return append([]vfM{}, e.emis...)
+}
+
+// ---------------------------------------------------------------------------------------------------------------
+// C11 clause P5 (re-bind freshness), two-run relational check - see spec/Rebind.tla.
+// A re-bind script is executed twice on fresh chains: run "re" executes every step (first life of stream rs, Unbind, second
+// Bind, suffix), run "fresh" skips the steps marked h1 (the first life).  Both runs use the same controlled clock values
+// (step field clk), tick-driven loops are stepped (verif tick gates, injected tickers), asynchronous retransmissions are
+// awaited through the responder's done gate.  After every step marked ob an observation about rs is recorded:
+// the call's result, everything the chain wrote about rs during the step, the statistics of rs, the feedback report
+// attribute.  TLC (Trace_Rebind) pairs the observations of both runs and compares them modulo the per-instance
+// quantities listed in Rebind.tla.  Whatever cannot be ordered (a loop that does not reach its gate in time, ...) makes
+// the script inconclusive ("inc" of the reset event), never a mismatch.
+
+var uEpoch = time.Date(2026, 1, 1, 0, 0, 0, 0, time.UTC) //nolint:gochecknoglobals
+
+type uTicker struct {
+	rb *uRebind
+	c  chan time.Time
+}
+
+// Ch is evaluated by the loop every time it (re-)enters its select: the previous pass is complete then.
+func (t *uTicker) Ch() <-chan time.Time {
+	t.rb.tickEnter.Add(1)
+
+	return t.c
+}
+
+func (t *uTicker) Stop() {}
+
+type uRebind struct {
+	e       *uEnv
+	s       uint32
+	run     string
+	fresh   bool
+	agg     bool
+	members map[string]bool
+	clk     atomic.Int64   // controlled clock: ms after uEpoch
+	gen     map[uint32]int // bind generation of each local stream (under e.mu)
+	em      []vfM          // emissions about s since the last observation (under e.mu)
+	pliSeen int            // PLIs about s seen so far (under e.mu)
+	twSeen  map[int]bool   // transport-wide numbers acknowledged so far (under e.mu)
+	obs     []vfM
+	inc     string
+
+	done       chan struct{}
+	arrive     chan string
+	release    chan struct{}
+	parked     int
+	loopOn     bool
+	pliTicks   atomic.Int64
+	resendDone atomic.Int64
+	resendWant int64
+	tickEnter  atomic.Int64
+	tmu        sync.Mutex
+	tickers    []*uTicker
+	enter0     int64
+	pli0       int
+}
+
+func (rb *uRebind) now() time.Time { return uEpoch.Add(time.Duration(rb.clk.Load()) * time.Millisecond) }
+
+func (rb *uRebind) newTicker() *uTicker {
+	tk := &uTicker{rb: rb, c: make(chan time.Time)}
+	rb.tmu.Lock()
+	rb.tickers = append(rb.tickers, tk)
+	rb.tmu.Unlock()
+
+	return tk
+}
+
+func (rb *uRebind) setInc(why string) {
+	if rb.inc == "" {
+		rb.inc = why
+	}
+}
+
+// hook is installed as the verif gate function while a re-bind run is in progress.
+func (rb *uRebind) hook(name string, _ any) {
+	switch name {
+	case "nack.generator.tick", "report.receiver.tick": // park the loop at the top of its tick body
+		select {
+		case rb.arrive <- name:
+		case <-rb.done:
+			return
+		}
+		select {
+		case <-rb.release:
+		case <-rb.done:
+		}
+	case "intervalpli.tick": // free running, passes are counted (a parked loop could not take forced PLI requests)
+		rb.pliTicks.Add(1)
+	case "nack.responder.done":
+		rb.resendDone.Add(1)
+	}
+}
+
+func (rb *uRebind) waitFor(what string, cond func() bool) bool {
+	deadline := time.Now().Add(3 * time.Second)
+	for i := 0; !cond(); i++ {
+		if time.Now().After(deadline) {
+			rb.setInc(what)
+
+			return false
+		}
+		if i < 200 {
+			runtime.Gosched()
+		} else {
+			time.Sleep(20 * time.Microsecond)
+		}
+	}
+
+	return true
+}
+
+func (rb *uRebind) waitArrive() bool {
+	select {
+	case <-rb.arrive:
+		return true
+	case <-time.After(3 * time.Second):
+		rb.setInc("a loop did not reach its tick gate")
+
+		return false
+	}
+}
+
+func (rb *uRebind) begin(st *uStep) {
+	if st.Clk > 0 {
+		rb.clk.Store(int64(st.Clk))
+	}
+	rb.enter0 = rb.tickEnter.Load()
+	rb.e.mu.Lock()
+	rb.pli0 = rb.pliSeen
+	if st.Ob && !rb.agg {
+		rb.em = nil
+	}
+	rb.e.mu.Unlock()
+}
+
+func (rb *uRebind) afterBindW() {
+	rb.loopOn = true
+	for _, k := range []string{"nackgen", "rrecv"} {
+		if rb.members[k] {
+			if rb.waitArrive() {
+				rb.parked++
+			}
+		}
+	}
+	if rb.members["rsend"] { // the loop has created its ticker and waits in its select
+		rb.waitFor("sender report loop did not start", func() bool { return rb.tickEnter.Load() >= 1 })
+	}
+}
+
+// a PLI-enabled bind requests a forced PLI, which the loop writes whenever it gets to it: wait for it so that it
+// cannot fall into a later observation window
+func (rb *uRebind) afterBindM(st *uStep) {
+	if rb.members["pli"] && rb.loopOn && st.Pli && st.S == rb.s {
+		rb.waitFor("forced PLI was not written", func() bool {
+			rb.e.mu.Lock()
+			defer rb.e.mu.Unlock()
+
+			return rb.pliSeen > rb.pli0
+		})
+	}
+}
+
+// rfc8888 hands every packet to its loop: wait until the loop has recorded it and is back in its select
+func (rb *uRebind) afterRead(ok bool) {
+	if ok && rb.members["rfc8888"] && rb.loopOn {
+		rb.waitFor("rfc8888 loop did not take the packet", func() bool { return rb.tickEnter.Load() > rb.enter0 })
+	}
+}
+
+func (rb *uRebind) afterRTCPRead(st *uStep, attr interceptor.Attributes, ok bool) []vfM {
+	if ok && st.Kind == "nack" && st.Raw == nil && rb.members["nackresp"] { // one resend goroutine per NACK packet
+		rb.resendWant++
+		rb.waitFor("resend goroutine did not finish", func() bool { return rb.resendDone.Load() >= rb.resendWant })
+	}
+	rep := []vfM{}
+	if attr != nil {
+		if r, isRep := attr.Get(rtpfb.CCFBAttributesKey).(rtpfb.Report); isRep {
+			for _, p := range r.PacketReports {
+				if p.SSRC == rb.s {
+					rep = append(rep, vfM{"ssrc": int(p.SSRC), "seq": int(p.RTPSequenceNumber), "arrived": p.Arrived,
+						"cnt": int(p.SequenceNumber & 0x7fffffff)}) //nolint:gosec
+				}
+			}
+		}
+	}
+
+	return rep
+}
+
+func (rb *uRebind) tick() {
+	for i := 0; i < rb.parked; i++ {
+		select {
+		case rb.release <- struct{}{}:
+		case <-time.After(3 * time.Second):
+			rb.setInc("a parked loop did not take its release")
+
+			return
+		}
+	}
+	for i := 0; i < rb.parked; i++ {
+		if !rb.waitArrive() {
+			return
+		}
+	}
+	if rb.members["pli"] && rb.loopOn { // a complete pass that started after this step began
+		n0 := rb.pliTicks.Load()
+		rb.waitFor("intervalpli loop did not tick", func() bool { return rb.pliTicks.Load() >= n0+2 })
+	}
+	rb.tmu.Lock()
+	tks := append([]*uTicker{}, rb.tickers...)
+	rb.tmu.Unlock()
+	for _, tk := range tks {
+		e0 := rb.tickEnter.Load()
+		select {
+		case tk.c <- rb.now():
+			rb.waitFor("ticker loop did not finish its pass", func() bool { return rb.tickEnter.Load() > e0 })
+		case <-time.After(3 * time.Second):
+			rb.setInc("ticker loop did not take the tick")
+		}
+	}
+}
+
+// drain waits until every listed transport-wide number has been acknowledged (real 1 ms ticker of the TWCC sender)
+func (rb *uRebind) drain(st *uStep) {
+	if len(st.Nums) == 0 {
+		time.Sleep(5 * time.Millisecond)
+
+		return
+	}
+	rb.waitFor("transport-wide feedback did not arrive", func() bool {
+		rb.e.mu.Lock()
+		defer rb.e.mu.Unlock()
+		for _, n := range st.Nums {
+			if !rb.twSeen[int(n)] {
+				return false
+			}
+		}
+
+		return true
+	})
+}
+
+func (rb *uRebind) shutdown() {
+	if rb.resendWant > 0 {
+		rb.waitFor("resend goroutine did not finish", func() bool { return rb.resendDone.Load() >= rb.resendWant })
+	}
+	close(rb.done)
+}
+
+func uWords(v uint64, n int) []int {
+	res := make([]int, n)
+	for i := n - 1; i >= 0; i-- {
+		res[i] = int(v & 0xffff)
+		v >>= 16
+	}
+
+	return res
+}
+
+func uEm(t string, ssrc uint32, seq int, from uint32, cur bool, x, nums, pl []int) vfM {
+	if x == nil {
+		x = []int{}
+	}
+	if nums == nil {
+		nums = []int{}
+	}
+	if pl == nil {
+		pl = []int{}
+	}
+
+	return vfM{"t": t, "ssrc": int(ssrc), "seq": seq, "from": int(from & 0x7fffffff), "cur": cur, "x": x, "nums": nums, "pl": pl}
+}
+
+// capRTP records a packet reaching the transport-side writer of the re-bound stream (called under e.mu)
+func (rb *uRebind) capRTP(h *rtp.Header, pl []byte, app, cur bool) {
+	t := "rtp"
+	switch {
+	case app:
+		t = "app"
+	case h.PayloadType == 97:
+		t = "rtx"
+	case h.PayloadType == 98:
+		t = "fec"
+	}
+	head := pl
+	if len(head) > 40 {
+		head = head[:40]
+	}
+	mk := 0
+	if h.Marker {
+		mk = 1
+	}
+	x := append([]int{int(h.PayloadType), mk, len(pl)}, uWords(uint64(h.Timestamp), 2)...)
+	rb.em = append(rb.em, uEm(t, h.SSRC, int(h.SequenceNumber), 0, cur, x, nil, vfInts(head)))
+}
+
+// capRTCP records what the chain wrote about the re-bound stream (called under e.mu)
+func (rb *uRebind) capRTCP(pkts []rtcp.Packet) { //nolint:cyclop
+	clip := func(v uint32) int { return int(v & 0x7fffffff) }
+	for _, p := range pkts {
+		switch x := p.(type) {
+		case *rtcp.ReceiverReport:
+			for _, r := range x.Reports {
+				if r.SSRC == rb.s {
+					f := []int{int(r.LastSequenceNumber & 0xffff), int(r.LastSequenceNumber >> 16), clip(r.TotalLost), int(r.FractionLost),
+						clip(r.Jitter), int(r.LastSenderReport >> 16), int(r.LastSenderReport & 0xffff), clip(r.Delay)}
+					rb.em = append(rb.em, uEm("rr", r.SSRC, 0, x.SSRC, true, f, nil, nil))
+				}
+			}
+		case *rtcp.SenderReport:
+			if x.SSRC == rb.s {
+				f := append([]int{clip(x.PacketCount), clip(x.OctetCount)}, uWords(uint64(x.RTPTime), 2)...)
+				f = append(f, uWords(x.NTPTime, 4)...)
+				rb.em = append(rb.em, uEm("sr", x.SSRC, 0, 0, true, f, nil, nil))
+			}
+		case *rtcp.TransportLayerNack:
+			if x.MediaSSRC == rb.s {
+				nums := []int{}
+				for _, pr := range x.Nacks {
+					for _, n := range pr.PacketList() {
+						nums = append(nums, int(n))
+					}
+				}
+				rb.em = append(rb.em, uEm("nack", x.MediaSSRC, 0, x.SenderSSRC, true, nil, nums, nil))
+			}
+		case *rtcp.PictureLossIndication:
+			if x.MediaSSRC == rb.s {
+				rb.pliSeen++
+				rb.em = append(rb.em, uEm("pli", x.MediaSSRC, 0, x.SenderSSRC, true, nil, nil, nil))
+			}
+		case *rtcp.TransportLayerCC: // transport wide: kept for every stream, Trace_Rebind looks at the numbers of the suffix only
+			nums := []int{}
+			for _, s := range uSumRTCP([]rtcp.Packet{x}) {
+				if l, ok := s["nums"].([]int); ok {
+					nums = append(nums, l...)
+				}
+			}
+			for _, n := range nums {
+				rb.twSeen[n] = true
+			}
+			rb.em = append(rb.em, uEm("twcc", x.MediaSSRC, 0, x.SenderSSRC, true,
+				[]int{int(x.BaseSequenceNumber), int(x.PacketStatusCount), int(x.FbPktCount)}, nums, nil))
+		case *rtcp.CCFeedbackReport:
+			for _, b := range x.ReportBlocks {
+				if b.MediaSSRC != rb.s {
+					continue
+				}
+				f := []int{int(b.BeginSequence), len(b.MetricBlocks)}
+				nums := []int{}
+				for i, m := range b.MetricBlocks {
+					f = append(f, int(m.ArrivalTimeOffset))
+					if m.Received {
+						nums = append(nums, int(b.BeginSequence+uint16(i))) //nolint:gosec
+					}
+				}
+				rb.em = append(rb.em, uEm("ccfb", b.MediaSSRC, 0, x.SenderSSRC, true, f, nums, nil))
+			}
+		}
+	}
+}
+
+// uFlat flattens a statistics value into (field path, integer) pairs: floats in 1/1000, durations in microseconds,
+// times in ms after uEpoch (-1: zero time), everything reduced below 2^31
+func uFlat(prefix string, v reflect.Value, out *[]vfM) {
+	add := func(x int64) {
+		if x > math.MaxInt32 || x < -math.MaxInt32 {
+			x %= 1 << 30
+		}
+		*out = append(*out, vfM{"f": prefix, "v": int(x)})
+	}
+	if tm, ok := v.Interface().(time.Time); ok {
+		if tm.IsZero() {
+			add(-1)
+		} else {
+			add(tm.Sub(uEpoch).Milliseconds())
+		}
+
+		return
+	}
+	if d, ok := v.Interface().(time.Duration); ok {
+		add(d.Microseconds())
+
+		return
+	}
+	switch v.Kind() { //nolint:exhaustive
+	case reflect.Struct:
+		for i := 0; i < v.NumField(); i++ {
+			if v.Type().Field(i).IsExported() {
+				uFlat(prefix+"."+v.Type().Field(i).Name, v.Field(i), out)
+			}
+		}
+	case reflect.Int, reflect.Int8, reflect.Int16, reflect.Int32, reflect.Int64:
+		add(v.Int())
+	case reflect.Uint, reflect.Uint8, reflect.Uint16, reflect.Uint32, reflect.Uint64:
+		add(int64(v.Uint() & 0x3fffffffffffffff)) //nolint:gosec
+	case reflect.Float32, reflect.Float64:
+		f := v.Float() * 1000
+		if math.IsNaN(f) || math.IsInf(f, 0) || math.Abs(f) > 1e15 {
+			add(-2)
+		} else {
+			add(int64(math.Round(f)))
+		}
+	case reflect.Bool:
+		if v.Bool() {
+			add(1)
+		} else {
+			add(0)
+		}
+	case reflect.Slice, reflect.Array:
+		add(int64(v.Len()))
+	default:
+	}
+}
+
+// observe records the observation of one step of the suffix
+func (rb *uRebind) observe(st *uStep, ev vfM) {
+	e := rb.e
+	e.mu.Lock()
+	em := rb.em
+	if rb.agg && st.A != "drain" {
+		em = nil
+	} else {
+		rb.em = nil
+	}
+	e.mu.Unlock()
+	if em == nil {
+		em = []vfM{}
+	}
+	stv := []vfM{}
+	if e.statsGetter != nil {
+		if g := e.statsGetter.Get(rb.s); g != nil {
+			uFlat("", reflect.ValueOf(*g), &stv)
+		}
+	}
+	es, _ := ev["es"].(string)
+	if ev["blocked"] == true {
+		es = "blocked"
+	}
+	if p, _ := ev["panic"].(string); p != "" {
+		es = p
+	}
+	rb.obs = append(rb.obs, vfM{"a": "obs", "r": rb.run, "k": len(rb.obs), "step": st.A, "n": ev["n"], "err": ev["err"], "es": es,
+		"same": ev["same"], "rseq": ev["rseq"], "em": em, "st": stv, "rep": ev["rep"]})
+}
+
+func uRunRebind(t *testing.T, sc *uScript, out *vfWriter) {
+	t.Helper()
+	kinds := []string{}
+	members := map[string]bool{}
+	for _, m := range sc.Members {
+		kinds = append(kinds, m.K)
+		members[m.K] = true
+	}
+	runs := []*uRebind{}
+	for _, fresh := range []bool{false, true} {
+		rb := &uRebind{s: sc.RS, run: "re", fresh: fresh, agg: sc.Agg, members: members, gen: map[uint32]int{}, twSeen: map[int]bool{},
+			done: make(chan struct{}), arrive: make(chan string), release: make(chan struct{})}
+		if fresh {
+			rb.run = "fresh"
+		}
+		verifhook.SetGate(rb.hook)
+		uRunX(t, sc, out, false, false, rb)
+		verifhook.SetGate(nil)
+		runs = append(runs, rb)
+	}
+	inc := runs[0].inc
+	if inc == "" {
+		inc = runs[1].inc
+	}
+	bnums := sc.BNums
+	if bnums == nil {
+		bnums = []int{}
+	}
+	out.Emit(vfM{"a": "reset", "members": kinds, "kind": sc.Kind, "s": int(sc.RS), "bnums": bnums, "hlen": sc.HLen, "inc": inc})
+	for _, rb := range runs {
+		for _, o := range rb.obs {
+			out.Emit(o)
+		}
+		out.Emit(vfM{"a": "done", "r": rb.run, "k": len(rb.obs)})
+	}
 }
